@@ -4,6 +4,7 @@ import (
 	"bytes"
 	"context"
 	"fmt"
+	"math"
 	"os"
 	"os/exec"
 	"runtime"
@@ -36,6 +37,7 @@ var (
 
 func (stressArea) Gen(r *hx.Rng, n int, tier string, emit func(string)) {
 	off := r.Intn(80)
+	ncpu := runtime.NumCPU()
 	for i := 0; i < n; i++ {
 		k := (i + off) % 80 // all 80 combinations of workers x depth x GOMAXPROCS are visited in every 80 lines
 		w := stressWorkers[k%4]
@@ -46,6 +48,35 @@ func (stressArea) Gen(r *hx.Rng, n int, tier string, emit func(string)) {
 		if tier == "thorough" && r.Chance(1, 10) {
 			tasks = 2000
 		}
+		flags := 0
+		switch {
+		case i%20 == 7:
+			// a long burst on one worker with an unbounded backlog and completions interleaved with submissions: the
+			// backlog grows past 16, 32, 64, ... entries after its head has moved (order must still be submission order)
+			w, d = 1, hx.Pick(r, []int{-1, -1, math.MinInt64})
+			subs = hx.Pick(r, []int{1, 2})
+			tasks = hx.Pick(r, []int{300, 1000})
+		case i%3 == 1:
+			// wide family: boundary values of every numeric option, many submitters, sizes around growth thresholds
+			w = hx.Pick(r, []int{0, 1, 2, 3, ncpu, ncpu + 1, 64})
+			if w == 0 {
+				flags |= flagNoWorkers // New without the Workers option (1 + NumCPU workers)
+			}
+			wd := w
+			if wd == 0 {
+				wd = ncpu + 1
+			}
+			d = hx.Pick(r, []int{-1, 0, 1, 2, wd - 1, wd, wd + 1, 10, 17, 1 << 20, math.MinInt64})
+			if r.Chance(1, 8) {
+				d = -1
+				flags |= flagNoDepth // New without the Depth option (unbounded)
+			}
+			subs = hx.Pick(r, []int{1, 2, 8, 32})
+			tasks = hx.Pick(r, []int{0, 1, 16, 17, 33, 65, 129, 300, 1000})
+		}
+		if r.Chance(1, 6) {
+			flags |= flagTwin
+		}
 		panicPct := hx.Pick(r, []int{0, 0, 5, 30, 100})
 		hp := 0
 		if panicPct > 0 {
@@ -53,12 +84,20 @@ func (stressArea) Gen(r *hx.Rng, n int, tier string, emit func(string)) {
 		}
 		inCap := hx.Pick(r, []int{-1, -1, 1, 2, 5})
 		pace := 0
-		if r.Chance(1, 4) {
+		if r.Chance(1, 4) || i%20 == 7 {
 			pace = 1
 		}
-		emit(fmt.Sprintf("run %d %d %d %d %d %d %d %d %d %d", w, d, p, subs, tasks, panicPct, hp, inCap, pace, r.U64()%1000000))
+		emit(fmt.Sprintf("run %d %d %d %d %d %d %d %d %d %d %d", w, d, p, subs, tasks, panicPct, hp, inCap, pace,
+			r.U64()%1000000, flags))
 	}
 }
+
+// flags of a stress line (last field, optional)
+const (
+	flagNoWorkers = 1 // do not pass the Workers option (the bound `running <= Workers` is then not judged)
+	flagNoDepth   = 2 // do not pass the Depth option
+	flagTwin      = 4 // a second queue is built from the SAME option values and used concurrently (no shared state)
+)
 
 var stressFailures, stressHangs int
 
@@ -80,7 +119,7 @@ func (a stressArea) Run(line string) string {
 
 func (stressArea) run1(line string) string {
 	f := strings.Fields(line)
-	if len(f) != 11 || f[0] != "run" {
+	if (len(f) != 11 && len(f) != 12) || f[0] != "run" {
 		return "bad-op"
 	}
 	ctx, cancel := context.WithTimeout(context.Background(), 60*time.Second)
@@ -112,9 +151,13 @@ func (stressArea) run1(line string) string {
 }
 
 func stressChild(args []string) {
-	if len(args) != 10 {
+	if len(args) != 10 && len(args) != 11 {
 		fmt.Println("FAIL bad child arguments")
 		return
+	}
+	flags := 0
+	if len(args) == 11 {
+		flags = hx.Atoi(args[10])
 	}
 	workers, depth, procs := hx.Atoi(args[0]), hx.Atoi(args[1]), hx.Atoi(args[2])
 	subs, tasks, panicPct := hx.Atoi(args[3]), hx.Atoi(args[4]), hx.Atoi(args[5])
@@ -179,7 +222,13 @@ func stressChild(args []string) {
 		os.Exit(0)
 	}()
 
-	opts := []taskqueue.Option{taskqueue.Workers(workers), taskqueue.Depth(depth)}
+	var opts []taskqueue.Option
+	if flags&flagNoWorkers == 0 {
+		opts = append(opts, taskqueue.Workers(workers))
+	}
+	if flags&flagNoDepth == 0 {
+		opts = append(opts, taskqueue.Depth(depth))
+	}
 	handler := func(err error) {
 		// the handler runs on the worker goroutine that ran the panicking task
 		v, ok := curTaskOf.Load(curGID())
@@ -269,10 +318,33 @@ func stressChild(args []string) {
 			}
 		}(s)
 	}
-	wg.Wait()
-	shutCalled.Store(seq.Add(1))
-	q.Shutdown() // races the last completions
-	shutRet := seq.Add(1)
+	var twinRan []atomic.Int32
+	twinDone := make(chan struct{})
+	if flags&flagTwin != 0 {
+		// a second queue from the same option values, used while the first one is busy
+		twinRan = make([]atomic.Int32, 12)
+		q2 := taskqueue.New(opts...)
+		go func() {
+			for i := range twinRan {
+				q2.Submit(func() { twinRan[i].Add(1) })
+			}
+			q2.Shutdown()
+			close(twinDone)
+		}()
+	} else {
+		close(twinDone)
+	}
+	// Shutdown is called from a goroutine of its own as soon as the last Submit has returned (Submit concurrent with or
+	// after Shutdown is outside the domain: it panics with "send on closed channel" by construction)
+	shutDone := make(chan int64)
+	go func() {
+		wg.Wait()
+		shutCalled.Store(seq.Add(1))
+		q.Shutdown() // races the last completions
+		shutDone <- seq.Add(1)
+	}()
+	shutRet := <-shutDone
+	<-twinDone
 	startsAtReturn, finAtReturn := sum(startCnt), sum(finCnt)
 	time.Sleep(3 * time.Millisecond)
 
@@ -316,10 +388,15 @@ func stressChild(args []string) {
 	if noMarker.Load() != 0 {
 		fail("%d reported errors do not mention the text of the panic value", noMarker.Load())
 	}
-	if m := int(maxRunning.Load()); m > workers {
+	for i := range twinRan {
+		if c := twinRan[i].Load(); c != 1 {
+			fail("twin queue built from the same options: task %d ran %d times", i, c)
+		}
+	}
+	if m := int(maxRunning.Load()); flags&flagNoWorkers == 0 && m > workers {
 		fail("%d tasks were running at the same instant with %d workers", m, workers)
 	}
-	if workers == 1 {
+	if workers == 1 && flags&flagNoWorkers == 0 {
 		// order consistent with submission: Submit(a) returned before Submit(b) was called => a starts before b
 		order := make([]int, 0, tasks)
 		for id := 0; id < tasks; id++ {
